@@ -50,6 +50,8 @@ Expect(c) ==
     [] c.op = "prio2_new" -> \* 2 * NextPow2(n + 1) must not exceed the 2^20 roots of the field
          IF Le(BigAdd(c.n, <<1>>), TwoTo(19)) THEN "Ok" ELSE "Err"
     [] c.op = "rational" -> IF Z(c.d) THEN "Err" ELSE "Ok"
+    \* a float converts to a (non-negative) rational iff it is finite and not below zero; c.cls classifies the literal
+    [] c.op = "rational_f32" -> IF c.cls \in {"zero", "negzero", "positive"} THEN "Ok" ELSE "Err"
     [] c.op \in {"zcdp_budget", "puredp_budget", "laplace_new"} -> IF Z(c.n) THEN "Err" ELSE "Ok"
     [] c.op = "gaussian_new" -> "Ok"
     \* ---- measurements offered to shard ----
